@@ -241,6 +241,7 @@ func c05Gen() *rapid.Generator[c05Case] {
 		c := c05Case{Forest: f, Entry: entry, Branch: genBranch().Draw(t, "branch"), StopAt: -1}
 		c.Sp = genSpelling(f.HeadingOK()).Draw(t, "spelling")
 		maybeMixed(t, &c.Sp, len(f))
+		maybeNoGap(t, &c.Sp)
 		if rapid.Bool().Draw(t, "stop") {
 			c.StopAt = rapid.IntRange(0, model.Merge(f).Count()-1).Draw(t, "stopAt")
 		}
